@@ -10,6 +10,7 @@ import (
 	"github.com/hashicorp/nodeenrollment"
 	"github.com/hashicorp/nodeenrollment/types"
 	"github.com/hashicorp/nodeenrollment/zzverif/vf"
+	"github.com/hashicorp/nodeenrollment/zzverif/vfs"
 )
 
 func init() { VfHarnesses["VerifC04Certificates"] = VerifC04Certificates }
@@ -19,7 +20,7 @@ func init() { VfHarnesses["VerifC04Certificates"] = VerifC04Certificates }
 // valid exactly as long as its issuing root; one chain per server root; the stored record equals the response.
 func VerifC04Certificates() {
 	ctx := context.Background()
-	st := &vfStorage{}
+	st := &vfs.Storage{}
 	t0 := vf.Now()
 	vfDeadline = t0.Add(time.Second)
 	roots, err := RotateRootCertificates(ctx, st)
